@@ -2,7 +2,15 @@
 import streams
 from checks._propcommon import op_results, standard_programs
 
-THEOREMS = ["LNN.C13_aggregate_zero_iff", "LNN.C13_steps", "LNN.C13_pass", "LNN.C13_second_pass_zero"]
+THEOREMS = ["LNN.C13_aggregate_zero_iff",
+            "LNN.C13_aggregate_nonneg",
+            "LNN.C13_step",
+            "LNN.C13_steps",
+            "LNN.C13_call",
+            "LNN.C13_pass",
+            "LNN.C13_infer",
+            "LNN.C13_second_pass_zero",
+            "LNN.C13_amount_eq_potential_drop"]
 MODULES = ["LnnVerif.Props.C13"]
 FACETS = {"bounds", "reported"}
 
